@@ -99,12 +99,12 @@ FragEdges(I) == {e \in GE(I) : \A x \in e : IsFrag(I, x) /\ \A y \in e : I.fi[x]
 \*  first[i] - the first residue of i's block copy
 Layout(I) ==
   LET fe    == FragEdges(I)
-      comp  == [i \in Pos(I) |-> IF IsFrag(I, i) THEN Reach(fe, {i}) ELSE {i}]
-      blk   == [i \in Pos(I) |-> Blk(I, i)]
-      nres  == [i \in Pos(I) |-> NRes(blk[i])]
-      rank  == [i \in Pos(I) |-> Cardinality({j \in comp[i] : j < i})]
-      loc   == [i \in Pos(I) |-> IF IsFrag(I, i) THEN (rank[i] % nres[i]) + 1 ELSE 1]
-      first == [i \in Pos(I) |-> IF IsFrag(I, i) THEN Sorted(comp[i])[rank[i] - (loc[i] - 1) + 1] ELSE i]
+      comp  == TLCEval([i \in Pos(I) |-> IF IsFrag(I, i) THEN Reach(fe, {i}) ELSE {i}])
+      blk   == TLCEval([i \in Pos(I) |-> Blk(I, i)])
+      nres  == TLCEval([i \in Pos(I) |-> NRes(blk[i])])
+      rank  == TLCEval([i \in Pos(I) |-> Cardinality({j \in comp[i] : j < i})])
+      loc   == TLCEval([i \in Pos(I) |-> IF IsFrag(I, i) THEN (rank[i] % nres[i]) + 1 ELSE 1])
+      first == TLCEval([i \in Pos(I) |-> IF IsFrag(I, i) THEN Sorted(comp[i])[rank[i] - (loc[i] - 1) + 1] ELSE i])
   IN [comp |-> comp, blk |-> blk, nres |-> nres, loc |-> loc, first |-> first]
 Comp(I, i) == Layout(I).comp[i]
 
@@ -112,22 +112,22 @@ PBase(I) ==
   LET L     == Layout(I)
       firsts == {i \in Pos(I) : L.first[i] = i}
       \* block atoms that make up residue i
-      mine  == [i \in Pos(I) |-> {a \in DOMAIN L.blk[i].atoms : L.blk[i].atoms[a].res = L.loc[i]}]
-      nat   == [i \in Pos(I) |-> Cardinality(mine[i])]
-      off   == [i \in Pos(I) |-> SumTo(nat, i - 1)]                        \* atoms before residue i
+      mine  == TLCEval([i \in Pos(I) |-> {a \in DOMAIN L.blk[i].atoms : L.blk[i].atoms[a].res = L.loc[i]}])
+      nat   == TLCEval([i \in Pos(I) |-> Cardinality(mine[i])])
+      off   == TLCEval([i \in Pos(I) |-> SumTo(nat, i - 1)])                        \* atoms before residue i
       total == SumTo(nat, I.n)
-      ioff  == [i \in Pos(I) |-> off[L.first[i]]]                          \* atom offset of the block copy of residue i
-      lastcg == [i \in Pos(I) |-> IF i \in firsts THEN LastCg(L.blk[i]) ELSE 0]
-      cgoff == [i \in Pos(I) |-> SumTo(lastcg, L.first[i] - 1)]            \* one charge-group offset per copy
-      resOf == [g \in 1..total |-> CHOOSE i \in Pos(I) : off[i] < g /\ g <= off[i] + nat[i]]
+      ioff  == TLCEval([i \in Pos(I) |-> off[L.first[i]]])                          \* atom offset of the block copy of residue i
+      lastcg == TLCEval([i \in Pos(I) |-> IF i \in firsts THEN LastCg(L.blk[i]) ELSE 0])
+      cgoff == TLCEval([i \in Pos(I) |-> SumTo(lastcg, L.first[i] - 1)])            \* one charge-group offset per copy
+      resOf == TLCEval([g \in 1..total |-> CHOOSE i \in Pos(I) : off[i] < g /\ g <= off[i] + nat[i]])
       atom(g) == LET i == resOf[g]  b == L.blk[i].atoms[g - ioff[i]] IN
                    [an |-> b.an, ty |-> b.ty, q |-> b.q, m |-> b.m, rn |-> b.rn, cg |-> b.cg + cgoff[i], resid |-> Resid(I, i)]
-  IN [atoms  |-> [g \in 1..total |-> atom(g)],
+  IN [atoms  |-> TLCEval([g \in 1..total |-> atom(g)]),
       inters |-> UNION {{Shift(L.blk[f].inters[x], off[f]) : x \in DOMAIN L.blk[f].inters} : f \in firsts},
       ninters |-> SumTo([i \in Pos(I) |-> IF i \in firsts THEN Len(L.blk[i].inters) ELSE 0], I.n),
       edges  |-> UNION {{{e[1] + off[f], e[2] + off[f]} : e \in ToSet(L.blk[f].edges)} : f \in firsts},
-      gattr  |-> [i \in Pos(I) |-> {g \in 1..total : resOf[g] = i}],
-      blockOf |-> [g \in 1..total |-> BlkName(I, resOf[g])]]
+      gattr  |-> TLCEval([i \in Pos(I) |-> {g \in 1..total : resOf[g] = i}]),
+      blockOf |-> TLCEval([g \in 1..total |-> BlkName(I, resOf[g])])]
 
 \* the inputs the property quantifies over (besides connectedness, which the generators guarantee)
 BlocksOK(ff) ==
@@ -166,7 +166,8 @@ AppsOfLink(I, li, A, gat) ==
                   ELSE IF l.kind = "remove"
                   THEN [lk |-> li, rep |-> <<>>, rem |-> <<ga>>, ints |-> <<>>]
                   ELSE [lk |-> li, rep |-> <<[a |-> ga, f |-> "ty", v |-> l.par[1]], [a |-> ga, f |-> "q", v |-> l.par[2]]>>, rem |-> <<>>, ints |-> <<>>]
-  IN [x \in DOMAIN SelectSeq(ms, ok) |-> app(SelectSeq(ms, ok)[x])]
+      sel == SelectSeq(ms, ok)
+  IN TLCEval([x \in DOMAIN sel |-> app(sel[x])])
 LinkApps(I, A, gat) == FlattenSeq([li \in DOMAIN FL(I) |-> AppsOfLink(I, li, A, gat)])
 
 SetF(atom, f, v) == CASE f = "ty" -> [atom EXCEPT !.ty = v] [] f = "q" -> [atom EXCEPT !.q = v] [] f = "an" -> [atom EXCEPT !.an = v]
@@ -204,14 +205,15 @@ PFinalWith(I, apps) ==
       lkeys == {Key(apps[p[1]].ints[p[2]]) : p \in lints}
       lwin == {p \in lints : ~\E o \in lints : PairLess(p, o) /\ Key(apps[o[1]].ints[o[2]]) = Key(apps[p[1]].ints[p[2]])}
       all == {x \in B.inters : Key(x) \notin lkeys} \cup {apps[p[1]].ints[p[2]] : p \in lwin}
+      after == TLCEval([g \in 1..nA |-> afterLinks(g)])
       kept == {x \in all : ~Touches(x, R)}
       \* modifications: only the atoms a selected modification names, in its target residue
       sel == ModSel(I)
       elig == {s \in DOMAIN sel : ModEligible(I, sel[s])}
-      tgt(s, nm) == {g \in B.gattr[sel[s].pos] \ R : afterLinks(g).an = nm}
+      tgt(s, nm) == {g \in B.gattr[sel[s].pos] \ R : after[g].an = nm}
       modAtom(s, g) == LET md == ModNamed(I, sel[s].mod) IN {x \in DOMAIN md.atoms : md.atoms[x].rep /\ g \in tgt(s, md.atoms[x].an)}
       lastMod(g) == {s \in elig : modAtom(s, g) # {} /\ \A s2 \in elig : s2 > s => modAtom(s2, g) = {}}
-      final(g) == LET a == afterLinks(g) IN
+      final(g) == LET a == after[g] IN
                     IF lastMod(g) = {} THEN a
                     ELSE LET s == CHOOSE s \in lastMod(g) : TRUE  md == ModNamed(I, sel[s].mod)
                              x == CHOOSE x \in modAtom(s, g) : TRUE
@@ -221,13 +223,13 @@ PFinalWith(I, apps) ==
                             at |-> <<CHOOSE g \in tgt(s, md.inters[x].a) : TRUE, CHOOSE g \in tgt(s, md.inters[x].b) : TRUE>>] : x \in DOMAIN md.inters}
                         : s \in elig}
       keep == SelectSeq([g \in 1..nA |-> g], LAMBDA g : g \notin R)
-  IN [atoms  |-> [x \in DOMAIN keep |-> final(keep[x])],
+  IN [atoms  |-> TLCEval([x \in DOMAIN keep |-> final(keep[x])]),
       inters |-> {Renum(x, R) : x \in kept \cup modInts},
-      gattr  |-> [i \in Pos(I) |-> {RenumIdx(g, R) : g \in B.gattr[i] \ R}],
-      blockOf |-> [x \in DOMAIN keep |-> B.blockOf[keep[x]]]]
+      gattr  |-> TLCEval([i \in Pos(I) |-> {RenumIdx(g, R) : g \in B.gattr[i] \ R}]),
+      blockOf |-> TLCEval([x \in DOMAIN keep |-> B.blockOf[keep[x]]])]
 
 PLinkApps(I) == LET B == PBase(I) IN LinkApps(I, B.atoms, B.gattr)
-PFinal(I) == PFinalWith(I, PLinkApps(I))
+PFinal(I) == PFinalWith(I, TLCEval(PLinkApps(I)))
 
 (* ------------------------------------------------------------------ *)
 (* P-layer, C14                                                       *)
@@ -357,6 +359,7 @@ RECURSIVE ApplyReps(_, _)
 ApplyReps(A, s) == IF s = <<>> THEN A ELSE ApplyReps([A EXCEPT ![Head(s).a] = SetF(@, Head(s).f, Head(s).v)], Tail(s))
 \* expand_excl: neighbourhood(node, max = tag, min = nrexcl) counts path length in nodes
 Generated(A, E, N) ==
+  IF \A g \in DOMAIN A : A[g].ex <= N THEN {} ELSE
   {p \in PairsOf(Len(A)) : \E a \in p : \E b \in p \ {a} :
        /\ A[a].ex > N
        /\ Within(E, a, b, IF Dev.exCutoff THEN A[a].ex - 1 ELSE A[a].ex)
@@ -366,7 +369,7 @@ ApplyLinks ==
   /\ LET I == inp
          \* a residue whose 'graph' is empty makes the atom look-up of any link that reaches it fail with an IndexError
          idxErr == \E li \in DOMAIN FL(I) : \E m \in ResMatches(I, FL(I)[li]) : gattr[m[1]] = {} \/ gattr[m[2]] = {}
-         apps == LinkApps(I, atoms, gattr)
+         apps == TLCEval(LinkApps(I, atoms, gattr))
          A1 == ApplyReps(atoms, FlattenSeq([j \in DOMAIN apps |-> apps[j].rep]))
          R == UNION {ToSet(apps[j].rem) : j \in DOMAIN apps}
          lseq == FlattenSeq([j \in DOMAIN apps |-> apps[j].ints])
@@ -376,15 +379,16 @@ ApplyLinks ==
          d1 == IF Dev.dedupKey THEN DictPut(d0, lseq) ELSE d0 \o DictPut(<<>>, lseq)
          d2 == IF Dev.keepRemoved THEN d1 ELSE SelectSeq(d1, LAMBDA x : ~Touches(x, R))
          \* finding F7 (repaired): relabel_and_redo_res_graph renumbers all residue ids from 0
-         A2 == IF Dev.renumber /\ R # {} THEN [g \in DOMAIN A1 |-> [A1[g] EXCEPT !.resid = @ - I.start]] ELSE A1
+         A2 == TLCEval(IF Dev.renumber /\ R # {} THEN [g \in DOMAIN A1 |-> [A1[g] EXCEPT !.resid = @ - I.start]] ELSE A1)
          E2 == {e \in medges \cup LinkEdges(apps) : e \cap R = {}}
          gen == {p \in Generated(A2, E2, molN) : p \cap R = {}}
+         genSeq == SetToSeq(gen)
      IN IF idxErr THEN /\ err' = "index" /\ pc' = "done" /\ UNCHANGED <<atoms, inters, medges, gattr, removed, fired>>
         ELSE /\ atoms' = A2
              /\ removed' = R
              /\ medges' = E2
              /\ gattr' = [i \in Pos(I) |-> gattr[i] \ R]
-             /\ inters' = d2 \o [x \in DOMAIN SetToSeq(gen) |-> LET p == SetToSeq(gen)[x]  a == CHOOSE a \in p : \A o \in p : a <= o IN
+             /\ inters' = d2 \o [x \in DOMAIN genSeq |-> LET p == genSeq[x]  a == CHOOSE a \in p : \A o \in p : a <= o IN
                                     [sec |-> "exclusions", at |-> <<a, CHOOSE o \in p : o # a>>, par |-> <<>>, ver |-> "gen", occ |-> 1]]
              /\ fired' = IF Dev.dedupKey /\ Len(d0) # Len(inters) THEN fired \cup {"F16"} ELSE fired
              /\ err' = err /\ pc' = "mods"
